@@ -305,10 +305,20 @@ func (e *engine) verify(fc *funcContract, props []string) *vc {
 		if g.typ == "bool" {
 			sort = "Bool"
 		}
+		if g.typ == "map" {
+			sort = "(Array Int Int)"
+		}
 		v.ghostSorts[g.name] = sort
 		init := "0"
 		if sort == "Bool" {
 			init = "false"
+		}
+		if g.typ == "map" {
+			init = "((as const (Array Int Int)) 0)"
+			if g.init != "" && g.init != "?" {
+				v.errs = append(v.errs, "ghost map initialiser must be ? or empty")
+				g.init = ""
+			}
 		}
 		if g.init == "?" {
 			n := v.fresh("ghost " + g.name)
